@@ -261,6 +261,7 @@ func (s *Server) Restore(snap *Snapshot) {
 	defer s.execMu.Unlock()
 	s.mu.Lock()
 	defer s.mu.Unlock()
+	ks.scanPage = s.ks.scanPage
 	s.ks = ks
 }
 
@@ -327,6 +328,14 @@ func (s *Server) Stats() map[string]int {
 func (s *Server) SetFault(f func(pos int, args [][]byte) string) {
 	s.mu.Lock()
 	s.fault = f
+	s.mu.Unlock()
+}
+
+// SetScanPage makes SCAN examine n keys per call (COUNT overrides n) and apply MATCH afterwards, as redis does:
+// pages can be empty while the cursor is not 0. n = 0 restores the single-page behaviour.
+func (s *Server) SetScanPage(n int) {
+	s.mu.Lock()
+	s.ks.scanPage = n
 	s.mu.Unlock()
 }
 
